@@ -79,7 +79,10 @@ def content_strategy(what):
             T.a_text(0, 12).map(lambda s: ['s', s.replace('\x00', '')]),
             # different contents of one size
             st.text(alphabet='ab', min_size=5, max_size=5).map(
-                lambda s: ['s', s + '\n']))
+                lambda s: ['s', s + '\n']),
+            # a first character that some readers swallow
+            st.sampled_from(['\ufeffid,value\n1,2\n', '\ufeff', ' \ufeffx',
+                             '\ufeff\ufeffy\n']).map(lambda s: ['s', s]))
     if what == 'binary':
         return st.one_of(st.binary(max_size=24),
                          st.binary(min_size=4, max_size=4)).map(
